@@ -35,5 +35,9 @@ Proof. vm_compute. reflexivity. Qed.
 Theorem C14_callees : all_calls_ok = true.
 Proof. exact all_calls_ok_holds. Qed.
 
+(* the exported functions and methods of the package are exactly the six modelled entry points; Language is int *)
+Theorem C14_public_surface : exported_api_ok = true.
+Proof. exact exported_api_ok_holds. Qed.
+
 Print Assumptions C14_never_panics.
 Print Assumptions C14_seed.
